@@ -119,6 +119,7 @@ func (a *recAdapter) inject(raw []byte, prio int, data int) {
 		a.notifyQ[i]++
 	}
 	a.ops = append(a.ops, adOp{now(), "inject", data, "", -1})
+	vt.Mark("ad:inject", a, strconv.Itoa(data))
 }
 
 func (a *recAdapter) DequeueWithAckId() (any, bool, string) {
@@ -185,9 +186,10 @@ func (a *recAdapter) Values() []any {
 
 func (a *recAdapter) Purge() {
 	vt.Do(0, "ad:purge", a, nil, nil, func() string {
-		a.log("purge", len(a.pending), "")
+		n := len(a.pending)
+		a.log("purge", n, "")
 		a.pending = nil
-		return ""
+		return strconv.Itoa(n)
 	})
 }
 
